@@ -124,6 +124,15 @@ def dense(x):
     return x.to_dense() if hasattr(x, "to_dense") else x
 
 
+def near_rows(x1, x2=None):
+    """True if two rows (of the same batch element) are closer than 1e-3 without being identical.  The library's
+    quadratic-expansion distance loses sqrt(eps) there, and batched / non-batched matmuls round differently: kernels with a
+    kink at r = 0 (Matern, piecewise polynomial, cosine) are then compared at atol 1e-6 (DESIGN 1.4), everything else at 1e-11"""
+    x2 = x1 if x2 is None else x2
+    d = (x1.unsqueeze(-2) - x2.unsqueeze(-3)).abs().amax(-1)
+    return bool(((d > 0) & (d < 1e-3)).any())
+
+
 def spread(outs):
     """smallest, over pairs of replicas, of the largest absolute difference of their outputs (inf for one replica)"""
     best = math.inf
@@ -198,7 +207,7 @@ def eval_kernel(k, x1, x2, lazy, diag):
         return dense(k(x1) if x2 is None else k(x1, x2))
 
 
-def run_kernel(case, ctx: Ctx, build=None, desc=None, prep=None):
+def run_kernel(case, ctx: Ctx, build=None, desc=None, prep=None, smooth=None):
     build = build or kern.build_kernel
     r = case["kernel"]
     pb, db = recipe_batch(r), case["db"]
@@ -221,7 +230,8 @@ def run_kernel(case, ctx: Ctx, build=None, desc=None, prep=None):
         with ctx.observing("replica"):
             kb = build(rb)
             reps.append(eval_kernel(kb, sl(x1, nb, full, beta), None if x2 is None else sl(x2, nb, full, beta), case["lazy"], case["diag"]))
-    judge(ctx, "diag" if case["diag"] else "value", got, reps, full)
+    rough = not (smooth or kern.smooth_at_zero)(r) and (r["k"] == "Cylindrical" or near_rows(x1.to(torch.float64), None if x2 is None else x2.to(torch.float64)))
+    judge(ctx, "diag" if case["diag"] else "value", got, reps, full, atol=1e-6 if rough else ATOL)
     nontrivial(ctx, pb, db, reps)
     pat_labels(ctx, pb, db)
     return k, got, reps
@@ -405,9 +415,18 @@ def describe_special(r):
     return r["k"] + ("/ard" if r.get("ard") else "")
 
 
+def smooth_special(r):
+    """False if the kernel has a kink at r = 0 (see near_rows); the radial kernel of a CylindricalKernel sees |x|, which
+    coincides up to rounding for different rows, so that one is judged at the loose atol on every input"""
+    if r["k"] == "Matern52Grad":
+        return False
+    subs = ([r["base"]] if "base" in r else []) + list(r.get("parts", []))
+    return all(kern.smooth_at_zero(q) for q in subs)
+
+
 def run_special(case, ctx: Ctx):
     r = case["kernel"]
-    run_kernel(case, ctx, build=build_special, desc=describe_special, prep=prep_special)
+    run_kernel(case, ctx, build=build_special, desc=describe_special, prep=prep_special, smooth=smooth_special)
     ctx.label(f"kernel={r['k']}", f"diag={case['diag']}", f"lazy={case['lazy']}")
 
 
@@ -709,10 +728,15 @@ def exact_case(draw):
     mixed = draw(st.integers(0, 2)) == 0
     mean = draw(kern.mean_recipe(d, pb))
     kernel = draw(kern.kernel_tree(d, pb, depth=draw(st.sampled_from([0, 1, 2])), psd_only=True))
-    lik = draw(lik_rec(draw(st.sampled_from(["Gaussian", "Gaussian", "Gaussian", "FixedNoise", "FixedNoise+"])),
-                       pb if not mixed else sub_shape(draw, pb), n, nbs=([], db)))
+    lb = pb
     if mixed:
         mean, kernel = draw(thin_out(mean, 1)), draw(thin_out(kernel, 1))
+        # ExactGP takes its batch shape from the prior: the likelihood never carries batch dimensions the prior lacks
+        lb = sub_shape(draw, pb)
+        p_model = bshape(recipe_batch(mean), recipe_batch(kernel), db)
+        if bshape(p_model, lb) != p_model:
+            lb = []
+    lik = draw(lik_rec(draw(st.sampled_from(["Gaussian", "Gaussian", "Gaussian", "FixedNoise", "FixedNoise+"])), lb, n, nbs=([], db)))
     # the targets carry the data batch shape; the training inputs may be shared along data batch dimensions that the
     # hyper-parameters span (e.g. the "batch independent multi-output" pattern: model (2,), X (n, d)): ExactGP documents
     # targets of the shape of the prior's batch, so X may only be thinned where model x X still produces the full batch
@@ -772,14 +796,16 @@ def run_exact(case, ctx: Ctx):
         reps.append(rp)
     if not kappa <= 1e8:
         raise Discard("ill-conditioned (kappa>1e+08)")
-    tol = G.chol_tol(kappa, kern.smooth_at_zero(case["kernel"]))  # DESIGN 1.4: one dense solve
+    rows = torch.cat([X.expand(*full, *X.shape[-2:]), Xs.expand(*full, *Xs.shape[-2:])], -2)
+    smooth = kern.smooth_at_zero(case["kernel"]) or not near_rows(rows)
+    tol = G.chol_tol(kappa, smooth)  # DESIGN 1.4: one dense solve
     for key, g in got.items():
         train_side = key in ("prior.mean", "prior.covariance", "train.marginal_covariance", "mll")
         own = None if not train_side else (f_prior if key.startswith("prior") else (f_marg if key.startswith("train") else f_train))
         solve = key in ("mll", "posterior.mean", "posterior.covariance", "predictive.covariance")
         vals = [rp[key] for rp in reps]
         sc = max(1.0, max(float(v.abs().max()) for v in vals))
-        judge(ctx, key, g, vals, full, rtol=tol if solve else RTOL, atol=tol if solve else ATOL, own_batch=own,
+        judge(ctx, key, g, vals, full, rtol=tol if solve else RTOL, atol=tol if solve else (ATOL if smooth else 1e-6), own_batch=own,
               scale=sc if solve else None)
     nontrivial(ctx, pbe, db, [torch.cat([rp["posterior.mean"], rp["posterior.covariance"].reshape(-1), rp["mll"].reshape(1)]) for rp in reps])
     pat_labels(ctx, pbe, db)
@@ -842,6 +868,13 @@ def run_svgp(case, ctx: Ctx):
     full = bshape(pbe, db)
     ctx.cls = f"svgp|{r['strategy']}|{r['dist']}|{pattern(pbe, db)}|pb{pbe}|db{db}|kb{case['kb']}|zb{case['zb']}|vb{case['vb']}"
     X, y = T(case["X"]), T(case["y"])
+    Zf, Xf = T(r["Z"]), X
+    if r["strategy"] == "Unwhitened" and Zf.shape[-2] == Xf.shape[-2]:
+        same = (Zf.expand(*full, *Zf.shape[-2:]) == Xf.expand(*full, *Xf.shape[-2:])).all(-1).all(-1)
+        if bool(same.any()):
+            # UnwhitenedVariationalStrategy short-cuts x == Z (returns q(u) itself, refuses a delta q(u)) only if *all* batch
+            # elements coincide: jitter-level differences to the general path, not a batch question
+            raise Discard("unwhitened strategy: inputs equal to the inducing points in some batch element")
     with ctx.observing("batched"):
         got = _svgp_outputs(case, r, case["q"], case["lik"], X, y)
     reps, kappa = [], 1.0
@@ -858,7 +891,8 @@ def run_svgp(case, ctx: Ctx):
     if not kappa <= 1e6:
         raise Discard("ill-conditioned inducing covariance (kappa>1e+06)")
     # the whitening solve L^-1 K_zx enters q(f) twice (L^-T S L^-1): 1e3 * eps * kappa with kappa <= 1e6, floor 1e-9
-    tol = max(G.chol_tol(kappa), 1e-9)
+    rowsv = torch.cat([Zf.expand(*full, *Zf.shape[-2:]), Xf.expand(*full, *Xf.shape[-2:])], -2)
+    tol = max(G.chol_tol(kappa, kern.smooth_at_zero(r["kernel"]) or not near_rows(rowsv)), 1e-9)
     f_model = bshape(p_model, db)  # q(f) does not see the likelihood; the KL term sees neither likelihood nor data
     for key, own in (("qf.mean", f_model), ("qf.covariance", f_model), ("kl", "any"), ("elbo", None)):
         vals = [rp[key] for rp in reps]
@@ -976,6 +1010,15 @@ SPEC = PropertySpec(
         "parameters are set by name through the public setters (`initialize` for plain Parameters, buffer assignment for the RFF weights)",
         "solve-based outputs are compared at 1e3*eps*cond clipped to [1e-10, 1e-6]; cases with cond(K+S) > 1e8 (SVGP: cond(Kzz) > 1e6) are "
         "discarded and counted",
+        "kernels with a kink at r = 0 (Matern, piecewise polynomial, cosine; the radial part of CylindricalKernel always) on inputs with "
+        "near-coincident, non-identical rows (closer than 1e-3) are compared at atol 1e-6 (DESIGN 1.4), everything else at 1e-11",
+        "exact GP: the prior (mean, kernel, training inputs) spans the whole training batch shape - targets and likelihood parameters "
+        "never carry batch dimensions the prior lacks (ExactGP takes its batch shape from the prior); training inputs may be shared "
+        "along batch dimensions the hyper-parameters span; test inputs carry any compatible batch shape",
+        "SVGP / unwhitened strategy: cases where the inputs equal the inducing points in some batch element are discarded (the x == Z "
+        "short-cut applies only when all batch elements coincide and differs from the general path at jitter level)",
+        "cases in which the non-batched replica itself returns non-finite values are discarded (value questions of C05 / C12)",
+        "LCMKernel: data kernels without active_dims (LCMKernel ignores them, batched or not - the LCM half of F12, C06's subject)",
         "diag=True is exercised with x1 == x2 only (documented precondition); RBFKernelGradGrad with n1 == n2 only (F9 is C05's)",
         "deprecated AdditiveStructure / ProductStructure / NewtonGirardAdditive kernels (last_dim_is_batch) and the structure-exploiting "
         "kernels of C09 (Grid, GridInterpolation, InducingPoint) are not part of this check",
